@@ -753,6 +753,22 @@ pub fn eval_case(src: &str, opt: &Opt, origin: &str, tally: &mut Tally, findings
     Some(out1)
 }
 
+/// Findings are kept up to 200 per (property, kind, cause) family over the whole run; the rest is only counted.
+static FAMILIES: std::sync::LazyLock<std::sync::Mutex<std::collections::BTreeMap<String, u64>>> = std::sync::LazyLock::new(Default::default);
+fn cap_findings(findings: Vec<Value>) -> Vec<Value> {
+    let mut fam = FAMILIES.lock().unwrap();
+    findings
+        .into_iter()
+        .filter(|x| {
+            let cause = x["detail"].as_str().and_then(|d| d.strip_prefix("cause=")).and_then(|d| d.split(';').next()).unwrap_or("").to_string();
+            let key = format!("{}|{}|{}", x["property"].as_str().unwrap_or(""), x["kind"].as_str().unwrap_or(""), cause);
+            let n = fam.entry(key).or_insert(0);
+            *n += 1;
+            *n <= 200
+        })
+        .collect()
+}
+
 static SLOW: std::sync::LazyLock<std::sync::Mutex<std::collections::HashSet<String>>> = std::sync::LazyLock::new(Default::default);
 
 fn nesting_depth(src: &str) -> usize {
@@ -870,6 +886,7 @@ pub fn replay_format(cases: &str, trace: &str, summary: &str, tier: &str) {
     let cases = read_ndjson(std::path::Path::new(cases));
     let opts_full = option_set(tier);
     let opts_quick = option_set("quick");
+    let seed = seed_from_env();
     let results = par_map_with(
         &cases,
         threads(),
@@ -883,6 +900,10 @@ pub fn replay_format(cases: &str, trace: &str, summary: &str, tier: &str) {
             // the deep (depth 3) trees of the thorough tier are many: they get the quick plan, the thorough extras
             // (all 36 option combinations, every gap, line-break layouts) go to the trees of depth <= 2
             let deep = c["d"].as_u64().unwrap_or(0) >= 3;
+            if deep && (idx as u64).wrapping_mul(0x9E37_79B9_7F4A_7C15).wrapping_add(seed) % 5 != 0 {
+                // 363 000 depth-3 trees: a seeded fifth of them is replayed (every one is still printed and checked by TLC)
+                return (Tally::default(), vec![], json!({"ev": "tree", "id": idx, "template": true, "grammar": true, "runs": 1, "skipped": true}));
+            }
             let opts = if deep { &opts_quick } else { &opts_full };
             let comment_stride = if tier == "quick" || deep { 3 } else { 1 };
             let pick = |f: &dyn Fn(&str) -> bool| -> (Vec<&str>, Vec<&str>) {
@@ -1097,7 +1118,7 @@ pub fn replay_format(cases: &str, trace: &str, summary: &str, tier: &str) {
                 "verbatim": tally.bad.get("verbatim").copied().unwrap_or(0),
                 "placements": placements, "movedAsModelled": moved_as_modelled, "modelImprecise": model_imprecise,
                 "sideBad": findings.iter().filter(|f| f["kind"].as_str().is_some_and(|k| k.starts_with("comment-crosses") || k.starts_with("comment-moved"))).count()});
-            (tally, findings, rec)
+            (tally, cap_findings(findings), rec)
         },
         |_| (),
     );
@@ -1123,17 +1144,9 @@ fn write_out(results: Vec<(Tally, Vec<Value>, Value)>, trace: &str, summary: &st
                 *sums.entry(k.to_string()).or_default() += v;
             }
         }
-        // keep at most 200 findings per (property, kind, cause); the rest is counted
-        for x in f {
-            let cause = x["detail"].as_str().and_then(|d| d.strip_prefix("cause=")).and_then(|d| d.split(';').next()).unwrap_or("").to_string();
-            let key = format!("{}|{}|{}", x["property"].as_str().unwrap_or(""), x["kind"].as_str().unwrap_or(""), cause);
-            let n = per_key.entry(key).or_insert(0u64);
-            *n += 1;
-            if *n <= 200 {
-                findings.push(x);
-            }
-        }
+        findings.extend(f);
     }
+    per_key = FAMILIES.lock().unwrap().clone();
     extra["findings_by_family"] = json!(per_key);
     extra["runs"] = json!(runs);
     extra["bad"] = json!(bad);
@@ -1279,7 +1292,7 @@ pub fn corpus_format(trace: &str, summary: &str, tier: &str, mutants: usize) {
             let g = |k: &str| tally.bad.get(k).copied().unwrap_or(0);
             let rec = json!({"ev": "file", "id": idx, "parses": true, "runs": tally.runs, "timeout": g("timeout"), "panic": g("panic"), "unparsable": g("unparsable"), "structure": g("structure"),
                 "comments": g("comments"), "tokens": g("tokens"), "newline": g("newline"), "idempotence": g("idempotence"), "canon": canon_bad, "verbatim": verbatim_bad, "edits": edits});
-            (tally, findings, rec)
+            (tally, cap_findings(findings), rec)
         },
         |_| (),
     );
